@@ -247,9 +247,10 @@ func applyAlias(node *CandidateNode, alias *CandidateNode, aliasIndex int, newCo
 		return fmt.Errorf("merge anchor only supports maps, got %v instead", alias.Tag)
 	}
 	for index := 0; index < len(alias.Content); index = index + 2 {
-		keyNode := alias.Content[index]
+		// work on copies: exploding the merged-in entries must not explode the anchored map they come from
+		keyNode := alias.Content[index].Copy()
 		log.Debugf("applying alias key %v", keyNode.Value)
-		valueNode := alias.Content[index+1]
+		valueNode := alias.Content[index+1].Copy()
 		if keyNode.Value == "<<" && keyNode.Tag == "!!merge" {
 			// the merged map has merge keys of its own: merge what they refer to, not an entry called "<<"
 			if err := applyNestedMerge(node, valueNode, aliasIndex, newContent); err != nil {
